@@ -166,6 +166,61 @@ func c11Variants() []c11Variant {
 	return vs
 }
 
+// c11RefValid: the harness's own statement of "valid ActionResult": every
+// element present; output-file paths non-empty; no absolute path; symlink
+// paths and targets non-empty; every digest that is given is a non-negative
+// size with a 64-digit lower-case hex hash; output files and directories must
+// give their digest.
+func c11RefValid(ar *pb.ActionResult) bool {
+	okDigest := func(d *pb.Digest, required bool) bool {
+		if d == nil {
+			return !required
+		}
+		if d.SizeBytes < 0 || len(d.Hash) != 64 {
+			return false
+		}
+		for _, c := range d.Hash {
+			if !(c >= '0' && c <= '9' || c >= 'a' && c <= 'f') {
+				return false
+			}
+		}
+		return true
+	}
+	abs := func(p string) bool { return strings.HasPrefix(p, "/") }
+	for _, f := range ar.OutputFiles {
+		if f == nil || f.Path == "" || abs(f.Path) || !okDigest(f.Digest, true) {
+			return false
+		}
+	}
+	for _, d := range ar.OutputDirectories {
+		if d == nil || abs(d.Path) || !okDigest(d.TreeDigest, true) {
+			return false
+		}
+	}
+	for _, list := range [][]*pb.OutputSymlink{ar.OutputFileSymlinks, ar.OutputSymlinks, ar.OutputDirectorySymlinks} {
+		for _, l := range list {
+			if l == nil || l.Path == "" || l.Target == "" || abs(l.Path) {
+				return false
+			}
+		}
+	}
+	return okDigest(ar.StdoutDigest, false) && okDigest(ar.StderrDigest, false)
+}
+
+// c11Apply applies the variants in order; false if one does not apply to
+// what the earlier ones left (e.g. an index into a list that was dropped).
+func c11Apply(ar *pb.ActionResult, vs ...c11Variant) (ok bool) {
+	defer func() {
+		if recover() != nil {
+			ok = false
+		}
+	}()
+	for _, v := range vs {
+		v.apply(ar)
+	}
+	return true
+}
+
 var c11Encodings = []string{"grpc", "http-proto", "http-json", "http-proto-zstd", "http-json-zstd"}
 
 func (f *fx) c11Put(enc, key string, ar *pb.ActionResult) (bool, string) {
@@ -264,8 +319,48 @@ func TestC11(t *testing.T) {
 	raw := newFx(fxOpts{mode: mode, validateAC: false})
 	defer raw.close()
 	variants := c11Variants()
+	type c11Case struct {
+		v    c11Variant
+		vs   []c11Variant
+		encs []string
+	}
+	var cases []c11Case
 	for _, v := range variants {
-		for _, enc := range c11Encodings {
+		probe := c11Base("probe")
+		if !c11Apply(probe, v) || c11RefValid(probe) != v.valid {
+			rep.BrokenHarness("variant %s: the reference validator disagrees with its label", v.name)
+			return
+		}
+		cases = append(cases, c11Case{v: v, vs: []c11Variant{v}, encs: c11Encodings})
+	}
+	// two deviations at once (ordered pairs; quick: one of them a valid shape, two
+	// encodings; thorough: all pairs, all encodings); expected validity from the reference validator
+	shard, nshards := vlib.Shard()
+	for i, a := range variants {
+		for j, b := range variants {
+			if i == j || a.name == "valid-full" || b.name == "valid-full" {
+				continue
+			}
+			encs := c11Encodings
+			if !vlib.Thorough() {
+				if !(a.valid != b.valid) || j < i {
+					continue
+				}
+				encs = []string{"grpc", "http-proto"}
+			}
+			probe := c11Base("probe")
+			if !c11Apply(probe, a, b) {
+				continue
+			}
+			cases = append(cases, c11Case{v: c11Variant{name: a.name + " + " + b.name, valid: c11RefValid(probe)}, vs: []c11Variant{a, b}, encs: encs})
+		}
+	}
+	for ci, cs := range cases {
+		if ci%nshards != shard {
+			continue
+		}
+		v := cs.v
+		for _, enc := range cs.encs {
 			rep.Eval()
 			c11Ctr++
 			tag := fmt.Sprintf("c11/%s/%d/", mode, c11Ctr)
@@ -277,7 +372,7 @@ func TestC11(t *testing.T) {
 					}
 				}
 			}
-			v.apply(ar)
+			c11Apply(ar, cs.vs...)
 			key := vlib.Sha([]byte(tag + "key"))
 			filesBefore := len(f.filesFor(key))
 			ok, st := f.c11Put(enc, key, proto.Clone(ar).(*pb.ActionResult))
@@ -323,7 +418,11 @@ func TestC11(t *testing.T) {
 		}
 	}
 	// validation disabled: the raw key space stores anything, byte for byte
-	for _, body := range [][]byte{[]byte("not a protobuf at all \xff\xfe"), {}, []byte{0x20, 0x01}} {
+	rawBodies := [][]byte{[]byte("not a protobuf at all \xff\xfe"), {}, []byte{0x20, 0x01}}
+	if shard != 0 {
+		rawBodies = nil
+	}
+	for _, body := range rawBodies {
 		rep.Eval()
 		c11Ctr++
 		key := vlib.Sha([]byte(fmt.Sprintf("c11raw/%d", c11Ctr)))
@@ -338,6 +437,9 @@ func TestC11(t *testing.T) {
 	}
 	// uploads that are refused because an inlined blob does not match its digest
 	for _, where := range []string{"output-file-contents", "stdout_raw", "stderr_raw"} {
+		if shard != 0 {
+			break
+		}
 		rep.Eval()
 		c11Ctr++
 		tag := fmt.Sprintf("c11/%s/inl%d/", mode, c11Ctr)
@@ -365,8 +467,10 @@ func TestC11(t *testing.T) {
 			rep.Nontrivial(id)
 		}
 	}
-	c11Inline(rep, f, mode)
-	c11LastWins(rep, f, mode)
+	if shard == 0 {
+		c11Inline(rep, f, mode)
+		c11LastWins(rep, f, mode)
+	}
 	for _, p := range f.takePanics() {
 		rep.Violate("C14 handler panic during C11", p, nil)
 	}
